@@ -473,3 +473,9 @@ REGISTRY["C17"] = {
          "shards": {"quick": 4, "thorough": 8}, "gomaxprocs": [4, 16, 8, 2], "limit": {"quick": 900, "thorough": 5400}},
     ],
 }
+
+
+# Thorough tier: case counts of the rapid campaigns (and fuzzing seconds) are multiplied by this factor per property.
+# Chosen from measured runs (three checks side by side on 16 cores) so that every thorough check needs roughly 10-20 minutes.
+THOROUGH_SCALE = {"C01": 1, "C02": 1.5, "C03": 2, "C04": 4, "C05": 2, "C06": 2, "C07": 6, "C08": 3, "C09": 2, "C10": 1.5,
+                  "C11": 2, "C12": 1.5, "C13": 2, "C14": 3, "C15": 1.5, "C16": 2, "C17": 1, "C18": 2, "C19": 2, "C20": 2}
